@@ -619,8 +619,79 @@ def fit_formula(rep, prog, rule):
                 rep.bad(rule, key, loc, "%s is  %s  but the property requires  (%s - %s) * centering.%d"
                         % (fld, show(act)[:160], dims[0], crop, ci))
             else:
-                rep.unk(rule, key, loc, "%s = %s: shape not recognised" % (fld, show(act)[:140]))
+                # not a polynomial (min / max / clamp inside): evaluated at concrete sizes instead. For a
+                # centering inside [0, 1] the property fixes the value: (dim - crop) * centering
+                wit = None
+                for dv, cv, cc in ((1000.0, 500.0, 0.25), (1000.0, 500.0, 0.75), (900.0, 300.0, 0.1)):
+                    got = _feval(e, {"dim": dv, "crop": cv, "cent": cc, "dims": dims, "cropname": crop, "ci": ci})
+                    if got is None:
+                        wit = None
+                        break
+                    want = (dv - cv) * cc
+                    if abs(got - want) > 1e-6 * max(1.0, abs(want)):
+                        wit = (dv, cv, cc, got, want)
+                        break
+                    wit = "agree"
+                if isinstance(wit, tuple):
+                    rep.bad(rule, key + "|witness", loc,
+                            "%s = %s: for a source %s of %g, a crop %s of %g and centering.%d = %g the box gets "
+                            "%s = %g, but the share of the removed margin %g on that side must be the centering: "
+                            "%g" % (fld, fmt(e)[:140], dims[1], wit[0], crop, wit[1], ci, wit[2], fld, wit[3],
+                                    wit[0] - wit[1], wit[4]))
+                else:
+                    rep.unk(rule, key, loc, "%s = %s: shape not recognised%s" % (
+                        fld, show(act)[:140], " (agrees with the formula at three sample points)" if wit == "agree" else ""))
     rep.floor(rule, "margin expressions", n, 2)
+
+
+def _feval(e, env):
+    """float value of a margin expression at a sample point; None when a node is not understood"""
+    if not isinstance(e, tuple) or not e:
+        return None
+    k = e[0]
+    if k == "const":
+        return float(e[1]) if isinstance(e[1], (int, float)) and not isinstance(e[1], bool) else None
+    if k in ("param", "local"):
+        nm = e[2] if len(e) > 2 else None
+        if nm in env["dims"]:
+            return env["dim"]
+        if nm == env["cropname"]:
+            return env["crop"]
+        return None
+    if k == "field":
+        if "centering" in fmt(e[1]) and str(e[2]) == str(env["ci"]):
+            return env["cent"]
+        return None
+    if k == "cast":
+        return _feval(e[2], env)
+    if k in ("copy", "deref", "ref"):
+        return _feval(e[1], env)
+    if k == "bin":
+        a, b = _feval(e[2], env), _feval(e[3], env)
+        if a is None or b is None:
+            return None
+        try:
+            return {"Add": a + b, "Sub": a - b, "Mul": a * b, "Div": (a / b) if b else None}.get(e[1])
+        except Exception:
+            return None
+    if k == "un" and len(e) > 2 and e[1] == "Neg":
+        a = _feval(e[2], env)
+        return None if a is None else -a
+    if k in ("call", "callat"):
+        nm = e[1] if k == "call" else e[2]
+        args = e[2] if k == "call" else e[3]
+        vals = [_feval(a, env) for a in args]
+        if any(v is None for v in vals):
+            return None
+        if nm == "min" and len(vals) == 2:
+            return min(vals)
+        if nm == "max" and len(vals) == 2:
+            return max(vals)
+        if nm == "clamp" and len(vals) == 3:
+            return min(max(vals[0], vals[1]), vals[2])
+        if nm == "abs" and len(vals) == 1:
+            return abs(vals[0])
+    return None
 
 
 def quantise(rep, prog, rule):
